@@ -204,3 +204,9 @@ let () =
       (match parse_url (bytes_arg u) with
        | Ok (((h, p), r), sec) -> "ok:" ^ hex_of_bytes h ^ ":" ^ string_of_z p ^ ":" ^ hex_of_bytes r ^ ":" ^ b2s sec
        | Raise e -> "raise:" ^ exn_name e) | _ -> "badargs")
+
+(* tunnelreq <host> <port> <user|none> <password|none> -> the CONNECT request bytes of the model *)
+let () =
+  reg "tunnelreq" (function [h; p; u; pw] ->
+      let auth = if u = "none" then None else Some (bytes_arg u, (if pw = "none" then None else Some (bytes_arg pw))) in
+      hex_of_bytes (connect_request (bytes_arg h) (z_of_string p) auth) | _ -> "badargs")
